@@ -333,7 +333,12 @@ with call_native (fuel : nat) (st : state) (name : text) (args : list val) (env 
           | [input; source] =>
             let old := cur st in
             let st0 := match list_to_string source with Some nm => define_module st nm | None => st end in
-            load_loop f st0 input source 1 1 old d
+            let '(st1, r) := load_loop f st0 input source 1 1 d in
+            (* the module that was current before the load is current again, on every exit path *)
+            match set_current_module st1 old with
+            | Some st2 => (st2, r)
+            | None => (st1, RPanic "load_all: set_current_module(old).unwrap()")
+            end
           | _ => (st, RPanic "model: shape")
           end
         else match simple_native st name args d with
@@ -345,15 +350,11 @@ with call_native (fuel : nat) (st : state) (name : text) (args : list val) (env 
   end
 
 (* the `while !cursor.is_nil()` loop of load_all *)
-with load_loop (fuel : nat) (st : state) (cursor source : val) (line col : Z) (old : text) (d : N) {struct fuel} : state * res :=
+with load_loop (fuel : nat) (st : state) (cursor source : val) (line col : Z) (d : N) {struct fuel} : state * res :=
   match fuel with
   | O => (st, RFuel)
   | S f =>
-    if is_nil cursor then
-      match set_current_module st old with
-      | Some st' => (st', ROk sym_ok)
-      | None => (st, RPanic "load_all: set_current_module(old).unwrap()")
-      end
+    if is_nil cursor then (st, ROk sym_ok)
     else
       match call_native f st (s "read") [cursor; source; VNum line; VNum col] VNil (d + 1) with
       | (st1, ROk output) =>
@@ -362,8 +363,8 @@ with load_loop (fuel : nat) (st : state) (cursor source : val) (line col : Z) (o
         | Some status, Some result, Some rest, Some rerror, Some l, Some c =>
           let continue_with (st : state) :=
               match getv l, getv c with
-              | VNum lz, VNum cz => load_loop f st rest source lz cz old d
-              | _, _ => if is_nil rest then load_loop f st rest source 1 1 old d
+              | VNum lz, VNum cz => load_loop f st rest source lz cz d
+              | _, _ => if is_nil rest then load_loop f st rest source 1 1 d
                         else (st, RSig (make_error "wrong-argument-type" (s "read")
                                           [("argument-value", l); ("expected", vsym "number-type"); ("actual", vsym (tlabel_name (extended_get_type l)))]))
               end in
